@@ -181,8 +181,8 @@ func (ob *OrderBook) MatchAtSinglePrice(matchPrice sdkmath.LegacyDec) (quoteCoin
 		return sdkmath.Int{}, false
 	}
 	quoteCoinDiff = sdkmath.ZeroInt()
-	distributeToTicks := func(ticks []*orderBookTick) {
-		remainingAmt := matchableAmt
+	distributeToTicks := func(ticks []*orderBookTick, amt sdkmath.Int) {
+		remainingAmt := amt
 		for _, tick := range ticks {
 			tickAmt := TotalMatchableAmount(tick.orders, matchPrice)
 			if tickAmt.LTE(remainingAmt) {
@@ -197,10 +197,26 @@ func (ob *OrderBook) MatchAtSinglePrice(matchPrice sdkmath.LegacyDec) (quoteCoin
 			}
 		}
 	}
-	distributeToTicks(ob.buys.ticks)
-	distributeToTicks(ob.sells.ticks)
-	matched = true
+	// A group of sell orders cannot take a residual whose quote value truncates to zero
+	// (see DistributeOrderAmountToOrders), so the sell side may absorb slightly less than
+	// matchableAmt. Match the sell side first and give buyers exactly what sellers delivered.
+	sellOpenAmt := totalOpenAmount(ob.sells.ticks)
+	distributeToTicks(ob.sells.ticks, matchableAmt)
+	soldAmt := sellOpenAmt.Sub(totalOpenAmount(ob.sells.ticks))
+	distributeToTicks(ob.buys.ticks, soldAmt)
+	matched = soldAmt.IsPositive()
 	return
+}
+
+// totalOpenAmount returns the sum of the open amounts of all orders in the ticks.
+func totalOpenAmount(ticks []*orderBookTick) sdkmath.Int {
+	amt := sdkmath.ZeroInt()
+	for _, tick := range ticks {
+		for _, order := range tick.orders {
+			amt = amt.Add(order.GetOpenAmount())
+		}
+	}
+	return amt
 }
 
 // PriceDirection returns the estimated price direction within this batch
@@ -280,20 +296,24 @@ func (ob *OrderBook) Match(lastPrice sdkmath.LegacyDec) (matchPrice sdkmath.Lega
 			si++
 			continue
 		}
+		// The sell tick may absorb slightly less than asked when it is matched partially
+		// (a residual worth less than one quote coin is dropped), so match it first and
+		// give the buy tick exactly what the sell tick delivered.
+		sellTicks := []*orderBookTick{sellTick}
+		sellOpenAmt := totalOpenAmount(sellTicks)
+		quoteCoinDiff = quoteCoinDiff.Add(DistributeOrderAmountToTick(sellTick, sdkmath.MinInt(buyTickOpenAmt, sellTickOpenAmt), p))
+		soldAmt := sellOpenAmt.Sub(totalOpenAmount(sellTicks))
+		quoteCoinDiff = quoteCoinDiff.Add(DistributeOrderAmountToTick(buyTick, soldAmt, p))
 		if buyTickOpenAmt.LTE(sellTickOpenAmt) {
-			quoteCoinDiff = quoteCoinDiff.Add(DistributeOrderAmountToTick(buyTick, buyTickOpenAmt, p))
 			bi++
-		} else {
-			quoteCoinDiff = quoteCoinDiff.Add(DistributeOrderAmountToTick(buyTick, sellTickOpenAmt, p))
 		}
 		if sellTickOpenAmt.LTE(buyTickOpenAmt) {
-			quoteCoinDiff = quoteCoinDiff.Add(DistributeOrderAmountToTick(sellTick, sellTickOpenAmt, p))
 			si++
-		} else {
-			quoteCoinDiff = quoteCoinDiff.Add(DistributeOrderAmountToTick(sellTick, buyTickOpenAmt, p))
 		}
-		matchPrice = p
-		matched = true
+		if soldAmt.IsPositive() {
+			matchPrice = p
+			matched = true
+		}
 	}
 	return
 }
